@@ -119,6 +119,14 @@ Theorem C06_reachable_consistent : forall s, reachable s -> inv s.
 Proof. exact reachable_inv. Qed.
 Print Assumptions C06_reachable_consistent.
 
+(* --- the two together, as the property reads: after ANY history of requests, when a teardown comes to
+       its DESTROY hooks the only tasks the environment still owns are the DESTROY hook tasks. *)
+Theorem C06_destroy_order_after_any_history : forall force e s x r1,
+  reachable s -> find_env e (s_envs s) = Some x -> td_hookr (teardown force e s) = Some r1 ->
+  forall t, In t r1 -> owner_is e t = true -> In (t_id t) (destroy_hook_tids x).
+Proof. exact destroy_order_reachable. Qed.
+Print Assumptions C06_destroy_order_after_any_history.
+
 (* --- "a destroy request that cannot be honoured returns an error rather than success": whenever
        DestroyEnvironment answers success the environment is no longer listed (in any state at all,
        whatever the flags and the transition outcomes). *)
